@@ -182,8 +182,8 @@ pub fn run_case(mode: Mode, input: &[u8], driver: Driver, script: Script) -> (Re
                 let mut guard = 0;
                 while consumed < input.len() {
                     guard += 1;
-                    if guard > 64 {
-                        return Err("protocol did not terminate within 64 calls".into());
+                    if guard > 64 + input.len() / 64 {
+                        return Err(format!("protocol did not terminate within {} calls", 64 + input.len() / 64));
                     }
                     begin_call(&sh);
                     let offered: usize;
@@ -477,6 +477,98 @@ pub fn sweep(mode: Mode, maxlen: usize, k_of: &(dyn Fn(usize) -> usize + Sync)) 
         *c <= 6
     });
     (v, runs.load(Ordering::Relaxed), deviating.load(Ordering::Relaxed), max_points.load(Ordering::Relaxed))
+}
+
+/// the unit the large inputs are made of: text, SGR sequences, a two-byte character, an OSC, a newline
+pub const LARGE_UNIT: &str = "ab\x1b[38;5;9mc\x1b[44;1mé\x1b]0;t\x07\x1b[0m\n";
+
+pub fn large_input(n: usize, shift: usize) -> Vec<u8> {
+    LARGE_UNIT.as_bytes().iter().cycle().skip(shift).take(n).copied().collect()
+}
+
+fn large_drivers(mode: Mode, input: &[u8]) -> Vec<Driver> {
+    let mut d = vec![Driver::WriteProtocol, Driver::WriteAll];
+    if mode == Mode::Strip {
+        d.push(Driver::AutoNeverProtocol);
+    }
+    let n = input.len();
+    for (a, b) in [(n / 3, 2 * n / 3), (n.min(8190), n.min(8195)), (1, n - 1)] {
+        d.push(Driver::Vectored(a, b));
+    }
+    if let Ok(t) = std::str::from_utf8(input) {
+        for cut in [n / 2, n.min(8192), n.min(8191)] {
+            let cut = (0..=cut).rev().find(|&c| t.is_char_boundary(c)).unwrap_or(0);
+            d.push(Driver::WriteFmt(cut));
+        }
+    }
+    d.dedup();
+    d
+}
+
+/// Large inputs (sizes around 4 / 8 / 16 / 64 KiB, where buffered writers and console writers cut), the unit
+/// shifted so that every byte of an escape sequence and of a multi-byte character lands on every offset near
+/// the cut; every driver; every script with <= k deviations (k = 0: the inner writer accepts everything).
+pub fn large_sweep(mode: Mode, sizes: &[usize], k_of: &(dyn Fn(usize) -> usize + Sync)) -> (Vec<vexplore::evidence::Finding>, u64, u64) {
+    use rayon::prelude::*;
+    use std::sync::atomic::{AtomicU64, Ordering};
+    use vexplore::evidence::Finding;
+    let runs = AtomicU64::new(0);
+    let deviating = AtomicU64::new(0);
+    let viol = std::sync::Mutex::new(Vec::<Finding>::new());
+    let cases: Vec<(usize, usize)> = sizes.iter().flat_map(|&n| (0..LARGE_UNIT.len()).map(move |s| (n, s))).collect();
+    cases.par_iter().for_each(|&(n, shift)| {
+        let input = large_input(n, shift);
+        for driver in large_drivers(mode, &input) {
+            let st = vexplore::scripts::enumerate(k_of(n), |s| {
+                let r = match guard(|| run_case(mode, &input, driver, s.clone())) {
+                    Ok((r, script)) => {
+                        *s = script;
+                        r
+                    }
+                    Err(p) => {
+                        s.mark_aborted();
+                        Err(p)
+                    }
+                };
+                if s.deviations() > 0 {
+                    deviating.fetch_add(1, Ordering::Relaxed);
+                }
+                if let Err(m) = r {
+                    let mut v = viol.lock().unwrap();
+                    if v.len() < 100 {
+                        let short: String = if m.len() > 700 { format!("{} ... {}", m.chars().take(400).collect::<String>(), m.chars().rev().take(250).collect::<Vec<_>>().into_iter().rev().collect::<String>()) } else { m.clone() };
+                        v.push(Finding {
+                            system: format!("{}/large", driver_label(mode, driver)),
+                            clause: clause_of(&m),
+                            case: vec![format!("{n} bytes, unit shifted by {shift}"), format!("{driver:?}"), format!("script{:?}", s.choices())],
+                            message: short,
+                            replay: serde_json::json!({"kind":"large","mode":format!("{mode:?}"),"n":n,"shift":shift,"driver":format!("{driver:?}"),"script":s.choices()}),
+                        });
+                    }
+                    return false;
+                }
+                true
+            });
+            runs.fetch_add(st.runs, Ordering::Relaxed);
+        }
+    });
+    let mut v = viol.into_inner().unwrap();
+    v.sort_by_key(|f| (f.case[2].len(), f.key()));
+    let mut per: std::collections::HashMap<(String, String), usize> = Default::default();
+    v.retain(|f| {
+        let c = per.entry((f.system.clone(), f.clause.clone())).or_default();
+        *c += 1;
+        *c <= 2
+    });
+    (v, runs.load(Ordering::Relaxed), deviating.load(Ordering::Relaxed))
+}
+
+pub fn replay_large(v: &serde_json::Value) -> Result<(), String> {
+    let input = large_input(v["n"].as_u64().unwrap_or(0) as usize, v["shift"].as_u64().unwrap_or(0) as usize);
+    let driver = parse_driver(v["driver"].as_str().unwrap_or(""));
+    let mode = parse_mode(v["mode"].as_str().unwrap_or("Strip"));
+    let forced: Vec<usize> = v["script"].as_array().map(|a| a.iter().map(|x| x.as_u64().unwrap() as usize).collect()).unwrap_or_default();
+    run_case(mode, &input, driver, Script::new(forced)).0.map_err(|m| m.chars().take(700).collect())
 }
 
 pub fn parse_mode(s: &str) -> Mode {
